@@ -44,6 +44,16 @@ fn $fname(name: &str, args: &[Arg]) -> Option<String> {
         ("modf", []) => ok_pair(&a.modf()).or_else(|| ok_pair(&r.modf())),
         ("divmod", []) => ok_pair(&a.divmod()),
         ("nan_to_num", []) => ok_or(&a.nan_to_num()),
+        // norm with every keepdims form and with / without an axis: only the well-formedness of the answer is judged
+        // here (seeded change C01p: keepdims re-labelled the one-element result with a struct literal)
+        ("norm", [ord, ax, Arg::Z(kd)]) => {
+            let axis = match ax { Arg::N => None, Arg::Z(z) => Some(vec![*z as isize]), Arg::L(l) => Some(isizes(l)), _ => return None };
+            let keep = match kd { 0 => None, 1 => Some(false), _ => Some(true) };
+            match ord { Arg::N => ok_or(&a.norm(None::<NormOrd>, axis.clone(), keep)).or_else(|| ok_or(&r.norm(None::<NormOrd>, axis, keep))),
+                        Arg::Z(99) => ok_or(&a.norm(Some(NormOrd::Inf), axis, keep)),
+                        Arg::Z(o) => ok_or(&a.norm(Some(NormOrd::Int(*o as i32)), axis, keep)),
+                        Arg::S(m) => ok_or(&a.norm(Some(std::str::from_utf8(m).ok()?), axis, keep)), _ => return None }
+        }
         _ => return None,
     }))
 }
@@ -85,6 +95,15 @@ pub fn dispatch(op: &str, ty: &str, args: &[Arg]) -> Option<String> {
     // `mone`: the arguments are invalid BY CONSTRUCTION (an unknown option name): anything but an error value is reported
     if op == "mone" {
         let (name, rest) = match args.first() { Some(Arg::S(n)) => (String::from_utf8(n.clone()).ok()?, &args[1..]), _ => return Some("bad".into()) };
+        if name == "norm" {
+            // an order name that is not one of inf / -inf / fro / nuc / an integer
+            let (a, m) = match rest { [Arg::A(s1, e1), Arg::S(m)] => (mk::<f64>(s1, e1)?, String::from_utf8(m.clone()).ok()?), _ => return Some("bad:input".into()) };
+            let (ai, r) = (mk::<i32>(match rest { [Arg::A(s1, _), _] => s1, _ => return None }, match rest { [Arg::A(_, e1), _] => e1, _ => return None })?, okr(&a));
+            let all_err = a.norm(Some(m.as_str()), None, None).is_err() && r.norm(Some(m.clone()), None, None).is_err()
+                && std::panic::catch_unwind(std::panic::AssertUnwindSafe(|| ai.norm(Some(m.as_str()), Some(vec![0]), None).is_err())).unwrap_or(false)
+                && a.norm(Some(m.as_str()), Some(vec![0]), None).is_err();
+            return Some(if all_err { "z(1)".to_string() } else { "!accepted(an unknown option name gave a successful array or a panic)".to_string() });
+        }
         if name != "convolve" { return Some("bad:input".into()) }
         let (a, b, m) = match rest { [Arg::A(s1, e1), Arg::A(s2, e2), Arg::S(m)] => (mk::<f64>(s1, e1)?, mk::<f64>(s2, e2)?, String::from_utf8(m.clone()).ok()?), _ => return Some("bad:input".into()) };
         let r1 = a.convolve(&b, Some(m.as_str()));
